@@ -9,8 +9,8 @@ META = {
     "level": "model_checking",
     "engine": "afc",
     "technique": "TLA+ spec AfcShm (readers with a cached key that carries the sequence number, one action per yield point) model-checked with TLC for SeqsOk; edge-covering schedules of its state graph replayed on the real shm ReadState/WriteState under the yield-point scheduler with real seal operations, the verdict coming from the sequence numbers the real SealKey returns; call/return history validated against AfcAbs",
-    "text": "TLC checks every interleaving of a reader that sets up a seal context and seals repeatedly - each seal may fail inside the closure (buffer too small) - with a writer adding and removing *other* channels, which changes the list generation and forces the reader to re-derive its key from shared memory at the cached sequence number: the successful seals of a context carry 0, 1, 2, ... The spec mutant that re-derives at 0 must be rejected. Every transition of the schedule graphs is executed on the real code with real AES-GCM seals through AfcState::seal; each sealed message is opened with the channel's own key at the returned number. VIOLATION only if the numbers returned by the real successful seals of one context are not 0, 1, 2, ..., or the history is rejected by AfcAbs (C40 guards).",
-    "note": "Bounds: capacity 2; design run 5 writer scripts of 3 calls x 1 reader x (setup + 3 seals, each may fail) (thorough: 2 readers x 3 calls); schedule graphs as for C41. Sequentially consistent interleavings only (DESIGN §9). Seal failures are injected in the closure passed to AfcState::seal.",
+    "text": "TLC checks every interleaving of a reader that sets up a seal context and seals repeatedly - each seal may fail inside the closure (buffer too small) - with a writer adding and removing *other* channels, which changes the list generation and forces the reader to re-derive its key from shared memory at the cached sequence number: the successful seals of a context carry 0, 1, 2, ... The spec mutants that re-derive at 0 - always, or only when swap_remove moved the channel to another list slot (stale lookup hint) - must be rejected. Every transition of the schedule graphs is executed on the real code with real AES-GCM seals through AfcState::seal; each sealed message is opened with the channel's own key at the returned number. VIOLATION only if the numbers returned by the real successful seals of one context are not 0, 1, 2, ..., or the history is rejected by AfcAbs (C40 guards).",
+    "note": "Bounds: capacity 2; design run 5 writer scripts of 3 calls x 1 reader x (setup + 3 seals, each may fail) (thorough: 2 readers x 3 calls); schedule graphs as for C41, incl. capacity 3 scripts in which the removal of a lower-indexed channel relocates the reader's channel. Sequentially consistent interleavings only (DESIGN §9). Seal failures are injected in the closure passed to AfcState::seal.",
 }
 
 
@@ -21,7 +21,7 @@ def run(ctx):
         ctx.absorb(ctx.run_engine(vh, "mem" if case.get("engine") == "mem" else "shm", [case], opts={"only": "C40"}))
         return
     cfgs = ["MC_AfcShm_c40.cfg"] + (["MC_AfcShm_c40_thorough.cfg"] if ctx.thorough else [])
-    (beh, trace), sel = afc_util.shm_check(ctx, vh, "C40", cfgs, ("MC_AfcShm_mut_seq.cfg", "SeqsOk"))
+    (beh, trace), sel = afc_util.shm_check(ctx, vh, "C40", cfgs, [("MC_AfcShm_mut_seq.cfg", "SeqsOk"), ("MC_AfcShm_mut_moved.cfg", "SeqsOk")])
     afc_util.mem_check(ctx, vh, "C40")
     if ctx.nviol:
         # self-tests use the recorded results of this run; with violations present they prove nothing
